@@ -44,7 +44,11 @@ def envelope_items():
     add("array-body", '[' + good + ']', REFUSE + ["result"])
     add("not-json", 'this is not json', ["rpc:-32700", "http4xx"], reqid="__none__")
     add("truncated", good[:40], ["rpc:-32700", "http4xx"], reqid="__none__")
-    add("empty-object", '{}', REFUSE + ["none"], reqid="__none__", isreq=False)
+    # objects that are no JSON-RPC message at all (neither id nor method): never accepted as if they were a notification
+    # (on stdio and legacy SSE, where nothing can be addressed, silence is admitted - see below)
+    add("empty-object", '{}', REFUSE, reqid="__none__", isreq=False)
+    add("envelope-only", '{"jsonrpc":"2.0"}', REFUSE, reqid="__none__", isreq=False)
+    add("id-null-only", '{"jsonrpc":"2.0","id":null}', REFUSE, reqid="__none__", isreq=False)
     add("json-string", '"hello"', REFUSE, reqid="__none__")
     add("json-number", '42', REFUSE, reqid="__none__")
     add("notification-unknown", '{"jsonrpc":"2.0","method":"notifications/verif-unknown"}', ["none"] + REFUSE, reqid="__none__", isreq=False)
